@@ -5,6 +5,9 @@
      psyn [@sizes] <T> <prefix hex> <unit hex> <count> <suffix hex>
          the same on  prefix ++ unit^count ++ suffix;  the model evaluates inputs up to 2 MiB and answers SKIP above
          (the python oracle carries the expected outcome of those few cases)
+     parsed_scan [@sizes] <tx|block|prefix> <hex> <maj_lo> <maj_hi> <min_lo> <min_hi>
+         implementation: output scanning of whatever parses with those sub-address index ranges (u32, table <= 4096 entries);
+         model: OK / ERR from the decoder alone
      hexparse <hash|hash8|pid> <text as hex>    Hash / Hash8 / PaymentId :: from_hex  (hex crate: both cases, optional 0x)
      denom <text as hex>                        Denomination::from_str *)
 From MRS Require Import Model.Base Model.Varint Model.Codec Model.OpsCodec.
@@ -78,6 +81,17 @@ Definition ops_robust (op : string) (args0 : list string) : option string :=
     let '(sz, args) := take_sizes args0 in
     match args with
     | [T; h] => match parse_hex h with Some b => accept_reject sz T b | None => None end
+    | _ => None end
+  else if String.eqb op "parsed_scan" then
+    let '(sz, args) := take_sizes args0 in
+    match args with
+    | [T; h; a; b; c; d] =>
+        match parse_hex h, parse_N a, parse_N b, parse_N c, parse_N d with
+        | Some bs, Some a, Some b, Some c, Some d =>
+            if (a <? 2 ^ 32) && (b <? 2 ^ 32) && (c <? 2 ^ 32) && (d <? 2 ^ 32) && ((b - a) * (d - c) <=? 4096)
+               && negb (String.eqb T "header")
+            then accept_reject sz T bs else None
+        | _, _, _, _, _ => None end
     | _ => None end
   else if String.eqb op "psyn" then
     let '(sz, args) := take_sizes args0 in
